@@ -39,7 +39,7 @@ def calibrate():
 
 
 def strategy(tier):
-    return Lm.case_st(tier, pairs=[p for p in I.PAIRS if p[0] != "mips32"] + [("x64", "elf")])
+    return Lm.case_st(tier, pairs=[p for p in I.PAIRS if p[0] != "mips32"] + [("x64", "elf")], ivs=True)
 
 
 def budget(tier):
@@ -408,6 +408,8 @@ def evaluate(spec):
     if err_a is not None:
         out.classes.append("both-raised")
         return out
+    Lm.pack_layout(a)
+    Lm.pack_layout(b)
     da = Ob.canonical_dump(a.ir, rename_temps=True)
     db = Ob.canonical_dump(b.ir, rename_temps=True)
     if da != db:
